@@ -8,12 +8,13 @@ CFG = dict(
               "ply_header_line_lf_crlf", "ply_reader_quad_fan", "ply_reader_triangle", "ply_reader_face_other",
               "ply_mixed_type_group_not_claimed", "ply_ascii_int_through_float32", "ply_ascii_int_through_float32_concrete",
               "ply_ascii_uchar_scalar_not_normalised", "ply_ascii_uchar_scalar_not_normalised_concrete",
-              "ply_spec_readback_vertex", "ply_reads_spec_pointcloud", "ply_group_absent_not_built"],
+              "ply_spec_readback_vertex", "ply_reads_spec_pointcloud", "ply_group_absent_not_built",
+              "ply_spec_header_parses", "ply_reads_spec_pointcloud_bytes"],
     # proved, but `rfl` on the specification-side definition: not counted (ignored by the check)
     helper_theorems=["fan_quad"],
     streams=[dict(name="c08", n=dict(quick=400, thorough=5000))],
     trusted=T_PLY + ["the independent Go reference encoder in c08.go produces the bytes fed to ply.ReadMesh; c08.encode checks on every case that the Lean refEncode yields the same bytes"],
-    residue=["ply_reads_spec_full (readMesh (refEncode f) = meaning f for every guarded SpecFile) is a def … : Prop, NOT a theorem; composed so far (parsed-header interface, binary): ply_spec_readback_vertex (vertex arrays → face stage → assemble) and ply_reads_spec_pointcloud (files without face element read without error to the explicit mesh); missing: face loop over the reference face encoding, claim-stage characterisation, equality with `meaning`, header keyword parsing, ASCII; on every generated SpecFile the oracle c08.holds.meaning checks that ply.ReadMesh's result equals `meaning f` and c08.read that the model reader agrees with ply.ReadMesh",
+    residue=["ply_reads_spec_full (readMesh (refEncode f) = meaning f for every guarded SpecFile) is a def … : Prop, NOT a theorem; composed so far (parsed-header interface, binary): ply_spec_readback_vertex (vertex arrays → face stage → assemble) and ply_reads_spec_pointcloud (files without face element read without error to the explicit mesh); missing: face loop over the reference face encoding, claim-stage characterisation, equality with `meaning`, ASCII; header keyword parsing IS now proved for the reference encoder's headers (ply_spec_header_parses: any property order, alias spellings, comment/obj_info anywhere, LF/CRLF) and ply_reads_spec_pointcloud_bytes is stated from FILE BYTES; on every generated SpecFile the oracle c08.holds.meaning checks that ply.ReadMesh's result equals `meaning f` and c08.read that the model reader agrees with ply.ReadMesh",
              "proved for all inputs, over the REFERENCE encoding: field decoding at the header-computed offset for any property order/type mix (ply_spec_field_any_layout), value = Datum.val for representable data, the whole binary vertex block under the vertex loop for any list of located readers (ply_spec_vertex_block), an unrecognised property gets its own located scalar reader through addUnclaimed; scalar-reader location arithmetic (binary prefix sums, ASCII column); LF/CRLF line reading; quad/triangle emission with per-corner UVs",
              "the vector claim scan buildVec IS proved to yield a Located reader for any permutation under the uniform-type guard (ply_group_reader_located; the S2 sensitivity trial lives there) and feeds ply_spec_vertex_block; NOT proved (modelled and corresponded only): the IgnorableW fallback / buildAll composition; header keyword parsing from bytes (aliases, comments, element/property lines); the face loop over list properties; UpdateMesh/unweld assembly and its equality with `meaning`; the ASCII encoding",
              "all theorems hold for an ARBITRARY `Coding α` (the bundle has no laws): they speak about decode∘encode of that coding (datumRead); `Datum.Exact` / `ply_spec_field_value` is where representability enters",
